@@ -155,7 +155,7 @@ _QUICK_CFG = [
 ]
 _QUICK_SPECS = ["basic_int", "basic_str", "textattr", "textstr", "reqtext", "lists_int", "lists_str", "frozen", "nillable", "nilparent", "parenta",
                 "unqualified", "sequential", "wrapped", "unions_int", "unions_str", "enums", "qnames", "compound", "compound_single", "holder",
-                "derived_root", "wild_text", "wild_attrs", "anytyped", "defaults", "temporal", "formats", "tokenlists", "parentb", "nsattr", "derivedb", "dup", "unionmodels", "nsattrparent"]
+                "derived_root", "wild_text", "wild_attrs", "anytyped", "defaults", "temporal", "formats", "tokenlists", "parentb", "nsattr", "derivedb", "dup", "unionmodels", "nsattrparent", "family"]
 
 
 def plan(tier):
@@ -168,7 +168,7 @@ def plan(tier):
             w, h, ns, ind, ida = _QUICK_CFG[n % 8]
             jobs.append(Job("rt", {"spec": name, "writer": w, "handler": h, "ns": ns, "indent": ind, "ida": ida, "slen": slow.get(name, 2), "imax": 100}, 240, 30))
             jobs.append(Job("rt", {"spec": name, "writer": ("native", "lxml")[n % 3 == 2], "handler": ("lxml", "native")[n % 2], "ns": hostile[n % 6], "indent": 0, "ida": n % 2, "slen": slow.get(name, 2), "imax": 100}, 240, 30))
-        for name, ns in (("nsattr", 1), ("nsattrparent", 1), ("nsattrparent", 7)):  # attribute namespace bound only as the default namespace
+        for name, ns in (("nsattr", 1), ("nsattrparent", 1), ("nsattrparent", 7), ("qnames", 7), ("qnames", 1), ("nsattr", 10)):  # attribute namespace bound only as the default namespace
             jobs.append(Job("rt", {"spec": name, "writer": "native", "handler": "lxml", "ns": ns, "indent": 0, "ida": 0, "slen": 1, "imax": 100}, 240, 30))
         for ns in (5, 8):  # the xsi-using and two-namespace specs under the xsi-rebinding and the ns1-colliding map
             for name in ("nillable", "holder", "anytyped", "nsattr", "parenta"):
